@@ -506,8 +506,9 @@ def gen_absorb_cases(rnd, tier):
               ('SIR', {'nodes': [0, 1, 2, 3], 'edges': [[0, 1], [1, 2], [2, 3], [3, 0]], 'kind': 'cycle'}, [0, 2]),
               ('SEIR', {'nodes': [0, 1, 2], 'edges': [[0, 1], [1, 2]], 'kind': 'path'}, [1]),
               ('SEIR', {'nodes': [0, 1, 2], 'edges': [[0, 1], [1, 2], [0, 2]], 'kind': 'complete'}, [0])]
+    shapes += [('SIR', {'nodes': [0, 1, 2, 3], 'edges': [[a, b] for a in range(4) for b in range(a + 1, 4)], 'kind': 'complete'}, [0])]
     if tier != 'quick':
-        shapes += [('SIR', {'nodes': [0, 1, 2, 3], 'edges': [[a, b] for a in range(4) for b in range(a + 1, 4)], 'kind': 'complete'}, [0]),
+        shapes += [
                    ('SIR', {'nodes': [0, 1, 2, 3], 'edges': [[0, 1], [1, 2], [2, 3]], 'kind': 'path'}, [1]),
                    ('SEIR', {'nodes': [0, 1, 2, 3], 'edges': [[0, 1], [0, 2], [0, 3]], 'kind': 'star'}, [0]),
                    ('SEIR', {'nodes': [0, 1, 2, 3], 'edges': [[0, 1], [1, 2], [2, 3], [3, 0]], 'kind': 'cycle'}, [0])]
